@@ -45,6 +45,10 @@ fn programs_a(tier: Tier) -> Vec<String> {
     ] {
         v.push(s.to_string());
     }
+    // the repository's own corpus (accepted and rejected programs alike)
+    for c in crate::corpus::load() {
+        v.push(c.src);
+    }
     v.sort();
     v.dedup();
     v
@@ -299,7 +303,7 @@ fn part_b(rep: &mut Report, tier: Tier) {
 fn part_b2(rep: &mut Report, tier: Tier) {
     use crate::props::sweep;
     let specs = sweep::specs(tier);
-    let per_fn = if tier.thorough() { 20 } else { 10 };
+    let per_fn = if tier.thorough() { 16 } else { 6 };
     let mut functions = 0u64;
     let mut pairs = 0u64;
     let mut differing_refs = 0u64;
@@ -638,10 +642,16 @@ fn inventory(rep: &mut Report) {
 
 pub fn run(tier: Tier) -> Report {
     let mut rep = Report::new("C14", tier, "model_checking");
+    let t = std::time::Instant::now();
     part_a(&mut rep, tier);
+    let ta = t.elapsed().as_secs_f64();
     part_b(&mut rep, tier);
+    let tb = t.elapsed().as_secs_f64();
     part_b2(&mut rep, tier);
+    let tb2 = t.elapsed().as_secs_f64();
     part_c(&mut rep, tier);
+    let tc = t.elapsed().as_secs_f64();
+    rep.notes.push(format!("wall seconds: A {ta:.1}, B {:.1}, B2 {:.1}, C {:.1}", tb - ta, tb2 - tb, tc - tb2));
     inventory(&mut rep);
     cleanup_schemas();
     rep.set(
